@@ -29,7 +29,7 @@ class C01(Prop):
     components = {"real": ["baize.multipart.MultipartDecoder", "baize.multipart_helper.parse_stream/parse_async_stream", "baize.wsgi.Request.form", "baize.asgi.Request.form",
                            "baize.datastructures.UploadFile/FormData", "tempfile.SpooledTemporaryFile"],
                   "stub": ["chunk arrival (iterator / wsgi.input / ASGI receive)", "event loop clock/selector, executor inlined at a seeded instant"]}
-    hard_probes = ("cut_inside_delimiter", "byte_at_a_time", "empty_chunk", "upload_rolled_to_disk", "large_file", "executor_latency")
+    hard_probes = ("cut_inside_delimiter", "byte_at_a_time", "empty_chunk", "upload_rolled_to_disk", "large_file", "executor_latency", "transient_read_error")
     quick_runs = 60000
     thorough_runs = 1200000
     batch = 250
@@ -106,9 +106,59 @@ class C01(Prop):
                 results[surf] = got
                 ctx.ev("res", surf, len(got))
                 self._compare(ctx, surf, got, exp, mode, pieces)
+            if len([p for p in pieces if p]) >= 2 and ctx.sched.draw(4) == 0:
+                self._wsgi_retry_after_read_error(ctx, ct, pieces, exp, mode)
         finally:
             UploadFile.spool_max_size = old_spool
         ctx.actors = 2 if len(pieces) > 1 else 1
+
+    def _wsgi_retry_after_read_error(self, ctx, ct, pieces, exp, mode):
+        """Fault: wsgi.input.read() fails once (a socket timeout) in the middle of the body; the application
+        retries request.form.  The retry may fail, but it must never hand out a wrong part list."""
+        from baize.exceptions import HTTPException
+        from baize.wsgi import Request
+        from ..httpreq import AbstractRequest
+        from ..wsgi_peer import WsgiPeer
+        body = b"".join(pieces)
+        peer = WsgiPeer(ctx, ctx.sched, AbstractRequest("POST", "/", headers=[("content-type", ct), ("content-length", str(len(body)))], body=body), short_reads=False)
+        inp = feed.ChunkedInput(pieces)
+        fail_at = 2 + ctx.sched.draw(max(1, len(inp.pieces) - 1))
+        state = {"failed": False}
+
+        def on_read(delivered):
+            if not state["failed"] and inp.reads == fail_at:
+                state["failed"] = True
+                ctx.fault("transient_read_error")
+                raise TimeoutError("injected: read timed out")
+
+        inp.on_read = on_read
+        peer.environ["wsgi.input"] = inp
+        req = Request(peer.environ)
+        try:
+            first = ("ok", feed.items_of_sync(req.form.multi_items()))
+        except TimeoutError:
+            first = ("timeout", None)
+        except (HTTPException, RuntimeError) as e:
+            first = ("exc", type(e).__name__)
+        ctx.ev("retry-first", first[0])
+        if first[0] != "timeout":
+            if first[0] == "ok" and first[1] != exp:
+                ctx.violate("C01|wsgi_form|wrong-result-despite-no-error", "chunking %s" % mode)
+            return
+        try:
+            second = ("ok", feed.items_of_sync(req.form.multi_items()))
+        except (HTTPException, RuntimeError, TimeoutError) as e:
+            second = ("exc", type(e).__name__)
+        except Exception as e:
+            second = ("exc", type(e).__name__)
+        ctx.ev("retry-second", second[0], second[1] if second[0] == "exc" else len(second[1]))
+        if second[0] == "ok" and second[1] != exp:
+            ctx.violate("C01|wsgi_form|retry-after-read-error-returns-wrong-parts",
+                        "first request.form failed with a read timeout at read %d; the second returned %d of %d parts without an error; chunking %s" % (fail_at, len(second[1]), len(exp), mode))
+        try:
+            req.close()
+        except Exception:
+            pass
 
     def _compare(self, ctx, surf, got, exp, mode, pieces):
         if got == exp:
